@@ -11,7 +11,9 @@ TECHNIQUE = ("Hypothesis-generated keys x episode plans (incl. steps issued afte
 RULE = ("cases = (env, menu entry, key, plan) continued for up to 4 raw steps after the first LAST; the monitor "
         "checks reset (FIRST, zero reward, unit discount, spec shapes/dtypes) and every step (MID/LAST only, "
         "discount in [0,1], MID => not all-zero, LAST => all-zero, LBF truncation excepted); non-trivial = "
-        "histories that contain a LAST; distinct by (env, entry, terminal cause, key, number of post-LAST steps)")
+        "histories that contain a LAST; distinct by (env, entry, terminal cause, key, number of post-LAST steps); sweep "
+        "batches (counters sweep_*) screen 10^3..3*10^4 scripted-policy episodes per small entry on the device with "
+        "the same rules and re-judge flagged episodes with the monitor")
 ASSUMPTIONS = [
     "LevelBasedForaging: a LAST step with step_count >= time_limit may carry discount one (documented truncation); "
     "every other LAST step must carry discount zero",
@@ -116,7 +118,7 @@ def _sweep_flag(b):
 
     tl = int(b.env.time_limit) if b.name == "LevelBasedForaging" else None
 
-    def flag(s, ts, is_reset):
+    def flag(s, ts, is_reset, step):
         d = jnp.asarray(ts.discount).astype(jnp.float32).reshape(-1)
         r = jnp.asarray(ts.reward).reshape(-1)
         if is_reset:
